@@ -26,6 +26,12 @@
  *                                a pipe) the J-th read() is answered EINTR once; several
  *                                directives give several indices
  *       pipe_frag=SEED           reads on pipes return between 1 and 97 bytes
+ *       mmap_err=SUFFIX:ERRNO    mmap() of an open file whose path ends in SUFFIX fails
+ *       readdir_err=SUFFIX:K:ERRNO  the K-th readdir() on a directory whose path ends in SUFFIX
+ *                                fails (the directory was opened and partly listed)
+ *       stdout_frag=SEED         every write to fd 1 accepts between 1 and 97 bytes only (short
+ *                                writes without any error)
+ *       stdout_eintr=J           the J-th write to fd 1 is answered EINTR once
  *       read_frag=SEED           every read() on files beneath ROOT returns
  *                                between 1 and 97 bytes (seeded per fd)
  *   FAULTSHIM_OUT    file that receives the "what actually fired" counters
@@ -43,6 +49,8 @@
 #include <string.h>
 #include <sys/stat.h>
 #include <sys/types.h>
+#include <sys/mman.h>
+#include <sys/syscall.h>
 #include <sys/uio.h>
 #include <unistd.h>
 
@@ -63,6 +71,19 @@ static int n_open, n_opendir, n_read, n_eof, n_stat, n_fstat;
 static long pipe_eintr_at[MAXRULES];
 static int n_pipe_eintr;
 static int pipe_frag_on;
+static struct rule mmap_rules[MAXRULES], readdir_rules[MAXRULES];
+static int n_mmap, n_readdir;
+static long c_mmap_err, c_readdir_err;
+#define MAXDIRS 256
+static DIR *dir_ptr[MAXDIRS];
+static char *dir_path[MAXDIRS];
+static long dir_reads[MAXDIRS];
+static int out_frag_on;
+static uint64_t out_frag_rng;
+static long out_eintr_at[MAXRULES];
+static int n_out_eintr;
+static long out_writes;
+static long c_out_frag, c_out_eintr;
 static uint64_t pipe_frag_seed;
 static signed char fdfifo[MAXFD];   /* 0 unknown, 1 pipe, -1 not a pipe */
 static long fifo_reads[MAXFD];
@@ -112,8 +133,8 @@ static void dump(void) {
     if (!out || !real_open || strcmp(program_invocation_short_name, "rg") != 0) return;
     char buf[1024];
     int n = snprintf(buf, sizeof buf,
-        "epipe=%ld\nshort_write=%ld\nopen_err=%ld\nopendir_err=%ld\nread_err=%ld\nread_eintr=%ld\nread_frag=%ld\nopens=%ld\nopens_after_epipe=%ld\nstdout_written=%ld\nread_eof=%ld\nstat_err=%ld\nfstat_err=%ld\npipe_eintr=%ld\npipe_frag=%ld\n",
-        c_epipe, c_short_write, c_open_err, c_opendir_err, c_read_err, c_read_eintr, c_read_frag, c_opens, c_opens_after_epipe, stdout_written, c_read_eof, c_stat_err, c_fstat_err, c_pipe_eintr, c_pipe_frag);
+        "epipe=%ld\nshort_write=%ld\nopen_err=%ld\nopendir_err=%ld\nread_err=%ld\nread_eintr=%ld\nread_frag=%ld\nopens=%ld\nopens_after_epipe=%ld\nstdout_written=%ld\nread_eof=%ld\nstat_err=%ld\nfstat_err=%ld\npipe_eintr=%ld\npipe_frag=%ld\nstdout_frag=%ld\nstdout_eintr=%ld\nmmap_err=%ld\nreaddir_err=%ld\n",
+        c_epipe, c_short_write, c_open_err, c_opendir_err, c_read_err, c_read_eintr, c_read_frag, c_opens, c_opens_after_epipe, stdout_written, c_read_eof, c_stat_err, c_fstat_err, c_pipe_eintr, c_pipe_frag, c_out_frag, c_out_eintr, c_mmap_err, c_readdir_err);
     int fd = real_open(out, O_WRONLY | O_CREAT | O_TRUNC, 0644);
     if (fd >= 0) { real_write(fd, buf, n); real_close(fd); }
 }
@@ -130,6 +151,10 @@ static void parse_plan(const char *plan) {
         else if (!strcmp(k, "fstat_err") && n_fstat < MAXRULES) parse_rule(&fstat_rules[n_fstat++], v, 0);
         else if (!strcmp(k, "pipe_eintr") && n_pipe_eintr < MAXRULES) pipe_eintr_at[n_pipe_eintr++] = atol(v);
         else if (!strcmp(k, "pipe_frag")) { pipe_frag_on = 1; pipe_frag_seed = strtoull(v, NULL, 10); }
+        else if (!strcmp(k, "mmap_err") && n_mmap < MAXRULES) parse_rule(&mmap_rules[n_mmap++], v, 0);
+        else if (!strcmp(k, "readdir_err") && n_readdir < MAXRULES) parse_rule(&readdir_rules[n_readdir++], v, 1);
+        else if (!strcmp(k, "stdout_frag")) { out_frag_on = 1; out_frag_rng = strtoull(v, NULL, 10) * 0x9E3779B97F4A7C15ULL | 1; }
+        else if (!strcmp(k, "stdout_eintr") && n_out_eintr < MAXRULES) out_eintr_at[n_out_eintr++] = atol(v);
         else if (!strcmp(k, "stat_err") && n_stat < MAXRULES) parse_rule(&stat_rules[n_stat++], v, 0);
         else if (!strcmp(k, "opendir_err") && n_opendir < MAXRULES) parse_rule(&opendir_rules[n_opendir++], v, 0);
         else if (!strcmp(k, "read_err") && n_read < MAXRULES) parse_rule(&read_rules[n_read++], v, 1);
@@ -327,7 +352,75 @@ DIR *opendir(const char *path0) {
         errno = opendir_rules[i].err;
         return NULL;
     }
-    return real_opendir(path0);
+    DIR *d = real_opendir(path0);
+    if (d && n_readdir && under_root(path)) {
+        pthread_mutex_lock(&mu);
+        for (int i = 0; i < MAXDIRS; i++)
+            if (!dir_ptr[i]) { dir_ptr[i] = d; dir_path[i] = strdup(path); dir_reads[i] = 0; break; }
+        pthread_mutex_unlock(&mu);
+    }
+    return d;
+}
+
+static int readdir_fault(DIR *d) {
+    if (!n_readdir) return 0;
+    int hit = 0, err = 0;
+    pthread_mutex_lock(&mu);
+    for (int i = 0; i < MAXDIRS; i++) {
+        if (dir_ptr[i] != d) continue;
+        long idx = dir_reads[i]++;
+        for (int r = 0; r < n_readdir; r++)
+            if (readdir_rules[r].idx == idx && ends_with(dir_path[i], readdir_rules[r].suffix)) { hit = 1; err = readdir_rules[r].err; }
+        break;
+    }
+    if (hit) c_readdir_err++;
+    pthread_mutex_unlock(&mu);
+    if (hit) errno = err;
+    return hit;
+}
+
+struct dirent *readdir(DIR *d) {
+    static struct dirent *(*real)(DIR *);
+    if (!real) real = dlsym(RTLD_NEXT, "readdir");
+    init();
+    if (readdir_fault(d)) return NULL;
+    return real(d);
+}
+struct dirent64 *readdir64(DIR *d) {
+    static struct dirent64 *(*real)(DIR *);
+    if (!real) real = dlsym(RTLD_NEXT, "readdir64");
+    init();
+    if (readdir_fault(d)) return NULL;
+    return real(d);
+}
+int closedir(DIR *d) {
+    static int (*real)(DIR *);
+    if (!real) real = dlsym(RTLD_NEXT, "closedir");
+    if (n_readdir) {
+        pthread_mutex_lock(&mu);
+        for (int i = 0; i < MAXDIRS; i++)
+            if (dir_ptr[i] == d) { dir_ptr[i] = NULL; free(dir_path[i]); dir_path[i] = NULL; }
+        pthread_mutex_unlock(&mu);
+    }
+    return real(d);
+}
+
+/* mmap of a file under the root (forwarded with a raw system call: the dynamic linker and
+ * the allocator call mmap long before this library is initialised) */
+void *mmap(void *addr, size_t len, int prot, int flags, int fd, off_t off) {
+    if (inited && n_mmap && fd >= 0 && fd < MAXFD && !(flags & MAP_ANONYMOUS)) {
+        pthread_mutex_lock(&mu);
+        const char *p = fdpath[fd];
+        int hit = -1;
+        if (p) for (int i = 0; i < n_mmap; i++) if (ends_with(p, mmap_rules[i].suffix)) hit = i;
+        if (hit >= 0) c_mmap_err++;
+        pthread_mutex_unlock(&mu);
+        if (hit >= 0) { errno = mmap_rules[hit].err; return MAP_FAILED; }
+    }
+    return (void *)syscall(SYS_mmap, addr, len, prot, flags, fd, off);
+}
+void *mmap64(void *addr, size_t len, int prot, int flags, int fd, off_t off) {
+    return mmap(addr, len, prot, flags, fd, off);
 }
 
 int close(int fd) {
@@ -404,6 +497,18 @@ ssize_t read(int fd, void *buf, size_t n) {
 
 static ssize_t stdout_write(const void *buf, size_t n) {
     pthread_mutex_lock(&mu);
+    if (out_frag_on || n_out_eintr) {
+        long idx = out_writes++;
+        for (int i = 0; i < n_out_eintr; i++)
+            if (out_eintr_at[i] == idx) { c_out_eintr++; pthread_mutex_unlock(&mu); errno = EINTR; return -1; }
+        if (out_frag_on && n > 1) {
+            uint64_t x = out_frag_rng;
+            x ^= x << 13; x ^= x >> 7; x ^= x << 17;
+            out_frag_rng = x;
+            size_t lim = 1 + (size_t)(x % 97);
+            if (lim < n) { n = lim; c_out_frag++; }
+        }
+    }
     if (stdout_budget < 0) { pthread_mutex_unlock(&mu); return real_write(1, buf, n); }
     long left = stdout_budget - stdout_written;
     if (left <= 0 && n > 0) {
